@@ -2204,7 +2204,9 @@ pub fn sprinkle_split_replies(rng: &mut crate::verif::rng::Rng, script: &mut Vec
     let mut out = Vec::with_capacity(script.len() + 4);
     for op in script.drain(..) {
         if matches!(op, MOp::User { .. } | MOp::Unsol { .. }) && rng.chance(1, 5) {
-            out.push(MOp::SplitNextReply(*rng.pick(&[1usize, 2, 3, 9, 10, 11, 12, 17, 26, 27, 28, 40])));
+            out.push(MOp::SplitNextReply(*rng.pick(&[
+                1usize, 2, 3, 9, 10, 11, 12, 17, 26, 27, 28, 40, 292, 292, 293, 302, 584,
+            ])));
         }
         out.push(op);
     }
